@@ -65,11 +65,11 @@ instance (directed : Bool) (e f : Int × Int) : Decidable (SameEdge directed e f
   unfold SameEdge; infer_instance
 
 /-- Specification of a valid graph (property C12). -/
-structure GraphValid (directed : Bool) (ids : List Int) (edges : List (Int × Int)) : Prop where
-  unique_ids : ids.Nodup
-  endpoints : ∀ e ∈ edges, e.1 ∈ ids ∧ e.2 ∈ ids
-  no_self : ∀ e ∈ edges, e.1 ≠ e.2
-  no_repeat : edges.Pairwise (fun e f => ¬ SameEdge directed e f)
+def GraphValid (directed : Bool) (ids : List Int) (edges : List (Int × Int)) : Prop :=
+  ids.Nodup ∧                                               -- node ids are unique
+  (∀ e ∈ edges, e.1 ∈ ids ∧ e.2 ∈ ids) ∧                    -- every endpoint is a node id
+  (∀ e ∈ edges, e.1 ≠ e.2) ∧                                -- no edge joins a node to itself
+  edges.Pairwise (fun e f => ¬ SameEdge directed e f)       -- no edge is repeated
 
 theorem graphStage_iff (directed : Bool) (ids : List Int) (edges : List (Int × Int)) :
     graphStage directed ids edges = .ok ↔ GraphValid directed ids edges := by
@@ -92,9 +92,7 @@ theorem graphStage_iff (directed : Bool) (ids : List Int) (edges : List (Int × 
       cases (validateNoSelfEdges edges).1 <;>
       cases (validateNoRepeatedEdges (if directed then edges else edges.map sortPair)).1 <;> simp
   rw [key, uniqueValid_iff, nodesForEdgesValid_iff, selfValid_iff, hrep]
-  constructor
-  · rintro ⟨h1, h2, h3, h4⟩; exact ⟨h1, h2, h3, h4⟩
-  · rintro ⟨h1, h2, h3, h4⟩; exact ⟨h1, h2, h3, h4⟩
+  rfl
 
 /-- outcome of each graph call of `validate_data` (the call plus its `if not valid: raise`) -/
 def graphResult (directed : Bool) (ids : List Int) (edges : List (Int × Int)) (other : Call → Outcome) :
